@@ -173,7 +173,15 @@ func (s *session) fault(c *rec.Call) error {
 	code := codes[r.IntN(len(codes))]
 	httpStatuses := []int{400, 401, 403, 404, 405, 409, 416, 418, 429, 500, 502, 503, 599}
 	hs := httpStatuses[r.IntN(len(httpStatuses))]
-	switch r.IntN(8) {
+	// (an HTTPError may carry the response it was made from: a proxying backend's errors do)
+	upstream := &http.Response{StatusCode: hs, Status: fmt.Sprintf("%d %s", hs, http.StatusText(hs)), Proto: "HTTP/1.1", ProtoMajor: 1, ProtoMinor: 1, Header: http.Header{"Content-Type": {"application/json"}}}
+	switch r.IntN(11) {
+	case 8:
+		return ociregistry.NewHTTPError(ociregistry.NewError("injected", code, nil), hs, upstream, []byte(`{"errors":[]}`))
+	case 9:
+		return fmt.Errorf("wrapped: %w", ociregistry.NewHTTPError(ociregistry.NewError("injected", code, nil), hs, upstream, nil))
+	case 10:
+		return ociregistry.NewHTTPError(errors.New("injected http error"), hs, upstream, nil)
 	case 0, 1, 2:
 		return ociregistry.NewError("injected "+code, code, nil)
 	case 3:
